@@ -174,7 +174,9 @@ def firstComplete (cfg : Forward.Cfg) (connectOk : Bool) (p : Parser) : FirstOut
   if !Forward.isProxyRequest p then .reject (some Px.Gen.pkt_BAD_REQUEST_RESPONSE_PKT) none
   else match Connect.connectUpstream p.host p.port with
     | .error .httpProtocol => .reject none none          -- 'Both host and port must exist': response() is None
-    | .error .unicodeError => .raised                    -- text_(host) raises again inside the except arm
+    | .error .unicodeError =>
+      -- text_(host) raises inside the try block, before any connect: ProxyConnectionFailed (fix e5b7001)
+      .reject (some Px.Gen.pkt_BAD_GATEWAY_RESPONSE_PKT) none
     | .ok a =>
       if !connectOk then .reject (some Px.Gen.pkt_BAD_GATEWAY_RESPONSE_PKT) (some a)   -- ProxyConnectionFailed
       else if p.isTunnel then .tunnel a
@@ -368,8 +370,11 @@ def wseg (cfg : WCfg) (st : WSt × Option Parser) (raw : Bytes) : WSt × Option 
     | .ok p =>
       let s := { s with request := p }
       if p.state != .complete then (s, st.2)
-      else if !isWebRequest p || isWebsocketUpgrade p then ({ s with phase := .other }, st.2)
-      else if !Px.Url.utf8Valid (webPath p) then ({ s with phase := .raised }, st.2)      -- text_(path)
+      else if !isWebRequest p then ({ s with phase := .other }, st.2)
+      -- first statement of `on_request_complete` (fix eb09b1e): a path that is not UTF-8 is answered 400
+      else if !Px.Url.utf8Valid (webPath p) then
+        ({ s with phase := .closing, out := s.out ++ [cfg.badRequest] }, st.2)
+      else if isWebsocketUpgrade p then ({ s with phase := .other }, st.2)
       else match tryRoute cfg (webPath p) with
         | some k =>
           let s1 := { s with phase := .routed, route := some k, out := s.out ++ [cfg.respond k p],
@@ -436,9 +441,8 @@ def afterHandle (s : RSt) (r : Px.Reverse.Res) : RSt :=
 def rfirst (cfg : RCfg) (s : RSt) (p : Parser) : RSt :=
   let m := cfg.matchPat (webPath p)
   let r := Px.Reverse.onRequestComplete cfg.rv m (fun _ => 0) true cfg.table p s.rv
-  -- was `ReverseProxy.handle_request` reached? (`text_(path)` did not raise and `_try_route` found a route)
-  let invoked := !(cfg.table.any (fun pl => !pl.isEmpty) && !Px.Url.utf8Valid (webPath p)) &&
-    Px.Reverse.anyMatch m cfg.table
+  -- was `ReverseProxy.handle_request` reached? (the path is UTF-8 — else 400 — and `_try_route` found a route)
+  let invoked := Px.Url.utf8Valid (webPath p) && Px.Reverse.anyMatch m cfg.table
   if invoked then
     let s1 := afterHandle s r
     if s1.phase == .first then { s1 with phase := .routed } else s1
@@ -478,7 +482,8 @@ def rstep (cfg : RCfg) (st : RSt × Option Parser) (e : REv) : RSt × Option Par
       | .ok p =>
         let s := { s with request := p }
         if p.state != .complete then (s, st.2)
-        else if !isWebRequest p || isWebsocketUpgrade p then ({ s with phase := .other }, st.2)
+        else if !isWebRequest p || (Px.Url.utf8Valid (webPath p) && isWebsocketUpgrade p) then
+          ({ s with phase := .other }, st.2)
         else
           let s1 := rfirst cfg s p
           -- leftover of the segment: handed to `on_client_data` when `on_request_complete()` returned False
